@@ -40,6 +40,7 @@ func runC19(s *core.Sim, tier string) RunInfo {
 			Sample: map[string]any{"recency_threshold": R.String(), "trusting_period": TP.String(), "ops": hist}}
 	}
 	defer w.teardown()
+	w.configureDisk()
 	if err := w.OpenStore(store.Parameters{WriteBatchSize: core.Pick(s.Tape, "batch", sizeKnob), StoreCacheSize: 64, IndexCacheSize: 64}); err != nil {
 		s.Aborted = "store start: " + err.Error()
 		return info()
@@ -67,7 +68,7 @@ func runC19(s *core.Sim, tier string) RunInfo {
 		return info()
 	}
 	s.Quiesce(time.Second)
-	accepted := w.NetHead() // subjective head after start (adopted from the trusted peers)
+	accepted := calls[0].A // subjective head after start: what the trusted peers answered with
 	lastReturned := uint64(0)
 	settleSync := func() {
 		t := s.Go("sync-wait", func() {
